@@ -43,7 +43,10 @@ def fold(e):
 
 
 def dom_order(b, sites):
-    return sorted(sites, key=lambda s: (len(b.dominators().get(s.bb, ())), s.key()))
+    """execution order of sites on the (acyclic) spine: reverse post-order of their blocks"""
+    from .mirror import rpo
+    idx = {bb: i for i, bb in enumerate(rpo(b))}
+    return sorted(sites, key=lambda s: (idx.get(s.bb, 10**9), s.key()))
 
 
 def io_calls(b, region=None):
@@ -499,8 +502,8 @@ def all_format_facts(F):
         "footer_read": footer_read(F),
         "codec_ids": codec_ids(F),
         "from_u8": {k: v for k, v in from_u8_table(F).items() if v is not None},
-        "index_entry_values": index_entry_values(F),
-        "endianness": [(f.split("/")[-1], fn, cv) for f, fn, cv in endianness_inventory(F)],
+        "index_entry_values": [sorted({x[1] for x in side}) for side in index_entry_values(F)],
+        "endianness": sorted({(f.split("/")[-1], cv) for f, fn, cv in endianness_inventory(F)}),
         "consts": {k: F.const_int("metadata::" + k) for k in ("METADATA_V1_SIZE", "METADATA_V2_SIZE", "MAGIC_V1", "MAGIC_V2")},
     }
 
